@@ -142,7 +142,12 @@ class DetachedServer(ServerBase):
 
             elif msg == RuntimeMessage.CANCEL:
                 request = cast(uuid.UUID, payload)
-                self.handle_cancel_comp_task(request)
+                if request in self.clients[conn] and request in self.tasks:
+                    self.handle_cancel_comp_task(request)
+                else:
+                    # Nothing (left) to cancel for this client: the task is
+                    # unknown, not theirs, already delivered or cancelled.
+                    self.outgoing.put((conn, RuntimeMessage.CANCEL, None))
 
             else:
                 raise RuntimeError(f'Unexpected message type: {msg.name}')
@@ -320,6 +325,7 @@ class DetachedServer(ServerBase):
             # This task is unknown to the system
             m = (conn, RuntimeMessage.STATUS, CompilationStatus.UNKNOWN)
             self.outgoing.put(m)
+            return
 
         # Get the mailbox associated with this task.
         mailbox_id = self.tasks[request][0]
